@@ -2,7 +2,6 @@ package props
 
 import (
 	"go/token"
-	"regexp"
 	"sort"
 	"strings"
 
@@ -50,8 +49,6 @@ func rootFieldOf(v ssa.Value, typ string) bool {
 	return false
 }
 
-var phiName = regexp.MustCompile(`phi:\w*`)
-
 func c13(r *core.Run) {
 	p := r.P
 	defer c13Extra(r, hashPkg)
@@ -71,6 +68,9 @@ func c13(r *core.Run) {
 			{Type: "ConsistentHash", Field: "ring", Lock: "lock"},
 			{Type: "ConsistentHash", Field: "nodes", Lock: "lock"},
 		}, nil, nil)
+		// the engine names objects by access path: re-evaluate what it could not justify through
+		// single-assignment local aliases of the locked object (c13_util.go)
+		acc = c13Recheck(la, p, hashPkg, "lock", acc)
 		core.ReportAccesses(o, p, acc)
 		for f, m := range la.Imbalance {
 			o.Fail(p.Pos(f.Pos()), "%s: %s", core.FuncName(f), m)
@@ -116,7 +116,7 @@ func c13(r *core.Run) {
 			}
 		}
 		for _, s := range core.Calls(add, isSort) {
-			if tgt := core.Args(s)[0].(*ssa.MakeInterface).X; !core.IsFieldLoad(tgt, "ConsistentHash.keys") && !core.DependsOn(core.Forward(tgt), core.FieldLoad("ConsistentHash.keys")) {
+			if tgt := core.Strip(core.Args(s)[0]); !core.IsFieldLoad(tgt, "ConsistentHash.keys") && !core.DependsOn(core.Forward(tgt), core.FieldLoad("ConsistentHash.keys")) {
 				o.Fail(p.InstrPos(s), "the sort is not over h.keys")
 			}
 			if w, ok := core.Reach(core.Q{From: []core.At{core.After(s)}, Target: core.IsStoreToField("ConsistentHash.keys")}); ok {
@@ -128,43 +128,14 @@ func c13(r *core.Run) {
 		if !o.Need(add != nil && aww != nil, "AddWithReplicas / AddWithWeight") {
 			return
 		}
-		// loop bound: the comparison i < X feeding the loop around hashFunc
-		found := 0
-		for _, in := range core.Instrs(add, func(in ssa.Instruction) bool {
-			b, ok := in.(*ssa.BinOp)
-			if !ok || b.Op != token.LSS {
-				return false
-			}
-			_, isPhi := b.X.(*ssa.Phi)
-			return isPhi
-		}) {
-			b := in.(*ssa.BinOp)
-			found++
-			bound, ok := b.Y.(*ssa.Phi)
-			if !ok {
-				o.Fail(p.InstrPos(in), "replica loop bound is %s: not capped by h.replicas", core.Describe(b.Y))
-				continue
-			}
-			hasParam, hasField := false, false
-			for _, e := range bound.Edges {
-				if core.ParamAt(add, 2)(e) {
-					hasParam = true
-				} else if core.IsFieldLoad(e, "ConsistentHash.replicas") {
-					hasField = true
-				} else {
-					o.Fail(p.InstrPos(in), "replica loop bound may be %s", core.Describe(e))
-				}
-			}
-			if !hasParam || !hasField {
-				o.Fail(p.InstrPos(in), "replica loop bound is not min(replicas, h.replicas)")
-			}
-			cap := core.Cmp(token.GTR, core.ParamAt(add, 2), core.FieldLoad("ConsistentHash.replicas"))
-			if core.EdgeCount(add, cap) == 0 {
-				o.Fail(p.InstrPos(in), "no test replicas > h.replicas")
-			}
+		// the virtual-node loop(s) of AddWithReplicas visit the indices 0 … min(replicas, h.replicas)−1,
+		// whatever the spelling or direction of the loop test and wherever the capped count lives
+		loops := c13HashLoops(add, isHashCall)
+		for _, lp := range loops {
+			c13CheckReplicaCap(o, p, add, lp)
 		}
-		o.Site(found, core.FuncName(add))
-		if found == 0 {
+		o.Site(len(loops), core.FuncName(add))
+		if len(loops) == 0 {
 			o.Fail(p.Pos(add.Pos()), "replica loop not found")
 		}
 		r.Fn(core.FuncName(aww))
@@ -197,7 +168,7 @@ func c13(r *core.Run) {
 		desc := func(f *ssa.Function) []string {
 			var out []string
 			for _, c := range core.Calls(f, isHashCall) {
-				out = append(out, phiName.ReplaceAllString(core.Describe(c.Common().Args[0]), "phi"))
+				out = append(out, c13Canon(c.Common().Args[0], 0))
 			}
 			sort.Strings(out)
 			return out
@@ -211,16 +182,16 @@ func c13(r *core.Run) {
 		if strings.Join(da, "|") != strings.Join(dr, "|") {
 			o.Fail(p.Pos(rem.Pos()), "virtual-node hash input differs: add hashes %v, remove hashes %v", da, dr)
 		}
-		// Remove iterates over all h.replicas virtual nodes
-		ok := false
-		for _, in := range core.Instrs(rem, func(in ssa.Instruction) bool { b, k := in.(*ssa.BinOp); return k && b.Op == token.LSS }) {
-			b := in.(*ssa.BinOp)
-			if _, isPhi := b.X.(*ssa.Phi); isPhi && core.IsFieldLoad(b.Y, "ConsistentHash.replicas") {
-				ok = true
-			}
-		}
-		if !ok {
+		// Remove iterates over all h.replicas virtual nodes: its hash loop(s) visit 0 … h.replicas−1
+		rloops := c13HashLoops(rem, isHashCall)
+		if len(rloops) == 0 {
 			o.Fail(p.Pos(rem.Pos()), "Remove does not iterate over all h.replicas virtual nodes")
+		}
+		for _, lp := range rloops {
+			lo, trips := c13TripCount(c13Alg(map[string]ssa.Value{}), lp)
+			if !c13IsZero(lo) || !trips.Equal(core.PAtom("R")) {
+				o.Fail(p.InstrPos(lp.phi), "Remove visits %v virtual nodes starting at %v: not all h.replicas virtual nodes", trips, lo)
+			}
 		}
 	})
 	r.Check("D4/K5/get-pure-and-total", "Get writes no ring state and calls nothing nondeterministic; absence only when the ring or the slot is empty; index taken modulo len(keys)", func(o *core.O) {
@@ -228,24 +199,40 @@ func c13(r *core.Run) {
 			return
 		}
 		n := 0
-		for _, f := range core.WithAnon(get) {
-			r.Fn(core.FuncName(f))
-			for _, w := range writesToType(f, "ConsistentHash") {
-				o.Fail(p.InstrPos(w), "Get mutates ring state")
+		// Get and the methods of the hash it runs (transitively, in-package) write nothing and call nothing nondeterministic
+		seen := map[*ssa.Function]bool{}
+		var visit func(root *ssa.Function, depth int)
+		visit = func(root *ssa.Function, depth int) {
+			if seen[root] {
+				return
 			}
-			for _, c := range core.Calls(f, func(in ssa.Instruction) bool { return core.AsCall(in) != nil }) {
-				n++
-				name := core.Short(core.CalleeName(c))
-				for _, bad := range []string{"time.", "math/rand.", "(*math/rand.", "os.", "crypto/rand."} {
-					if strings.HasPrefix(name, bad) {
-						o.Fail(p.InstrPos(c), "Get calls %s (result would not be stable)", name)
-					}
+			seen[root] = true
+			for _, f := range core.WithAnon(root) {
+				r.Fn(core.FuncName(f))
+				for _, w := range writesToType(f, "ConsistentHash") {
+					o.Fail(p.InstrPos(w), "Get mutates ring state")
 				}
-				if strings.Contains(name, "hash.ConsistentHash).") && !strings.HasSuffix(name, ".Get") {
-					o.Fail(p.InstrPos(c), "Get calls %s", name)
+				for _, c := range core.Calls(f, func(in ssa.Instruction) bool { return core.AsCall(in) != nil }) {
+					n++
+					name := core.Short(core.CalleeName(c))
+					for _, bad := range []string{"time.", "math/rand.", "(*math/rand.", "os.", "crypto/rand."} {
+						if strings.HasPrefix(name, bad) {
+							o.Fail(p.InstrPos(c), "Get calls %s (result would not be stable)", name)
+						}
+					}
+					if strings.Contains(name, "hash.ConsistentHash).") && !strings.HasSuffix(name, ".Get") {
+						if callee := c.Common().StaticCallee(); c13InHashPkg(callee) && depth < 3 {
+							if _, plain := c.(*ssa.Call); plain {
+								visit(callee, depth+1)
+								continue
+							}
+						}
+						o.Fail(p.InstrPos(c), "Get calls %s", name)
+					}
 				}
 			}
 		}
+		visit(get, 0)
 		o.Site(n, core.FuncName(get))
 		emptyRing := core.EmptyLen(core.FieldLoad("ConsistentHash.ring"))
 		emptyKeys := core.EmptyLen(core.FieldLoad("ConsistentHash.keys"))
@@ -253,25 +240,23 @@ func c13(r *core.Run) {
 			_, ok := core.Forward(v).(*ssa.Lookup)
 			return ok
 		})
-		isAbsent := func(in ssa.Instruction) bool {
-			ret, ok := in.(*ssa.Return)
-			return ok && len(ret.Results) == 2 && core.Describe(core.Result(ret, 1)) == "const:false"
+		// the presence flag is a constant wherever it is decided (one return per outcome, or the
+		// outcomes merged before a single return); absence is decided only behind an emptiness test
+		sites, nonConst := c13FlagSites(get, 1)
+		for _, in := range nonConst {
+			o.Fail(p.InstrPos(in), "Get's presence flag is not a constant")
 		}
-		if w := core.Requires(get, isAbsent, emptyRing, emptyKeys, emptySlot); w != nil {
-			o.Fail(p.InstrPos(w), "Get reports absence although neither the ring nor the slot is empty")
+		var cut []core.Edge
+		for _, a := range []core.Atom{emptyRing, emptyKeys, emptySlot} {
+			h, _ := core.EdgesOf(get, a)
+			cut = append(cut, h...)
 		}
-		// every other return reports presence with a constant true
-		for _, ret := range core.Returns(get) {
-			in := ssa.Instruction(ret)
-			d := core.Describe(core.Result(ret, 1))
-			if d != "const:false" && d != "const:true" {
-				o.Fail(p.InstrPos(in), "Get's presence flag is not a constant")
+		for _, s := range sites {
+			if !s.val && s.reachable(get, core.CutSet(cut)) {
+				o.Fail(p.InstrPos(s.at), "Get reports absence although neither the ring nor the slot is empty")
 			}
 		}
-		isSearch := func(v ssa.Value) bool {
-			c, ok := v.(*ssa.Call)
-			return ok && core.Short(core.CalleeName(c)) == "sort.Search"
-		}
+		isSearch := c13IsSearch
 		lenKeys := core.IsLenOf(core.FieldLoad("ConsistentHash.keys"))
 		mod := core.Instrs(get, func(in ssa.Instruction) bool {
 			b, ok := in.(*ssa.BinOp)
@@ -283,8 +268,12 @@ func c13(r *core.Run) {
 			}
 			// explicit wrap: the search result compared with len(keys)
 			switch b.Op {
-			case token.EQL, token.GEQ, token.LSS, token.NEQ:
+			case token.EQL, token.NEQ:
 				return (isSearch(b.X) && lenKeys(b.Y)) || (isSearch(b.Y) && lenKeys(b.X))
+			case token.GEQ, token.LSS:
+				return isSearch(b.X) && lenKeys(b.Y)
+			case token.LEQ, token.GTR: // len(keys) <= index, len(keys) > index
+				return isSearch(b.Y) && lenKeys(b.X)
 			}
 			return false
 		})
@@ -351,7 +340,7 @@ func c13(r *core.Run) {
 			_, ok := v.(*ssa.FreeVar)
 			return ok
 		}
-		n := 0
+		n, sorts, searches := 0, 0, 0
 		// by role: the closures handed to sort.Slice (comparator) and sort.Search (predicate) anywhere in the package
 		for _, f := range p.PkgFuncs(hashPkg) {
 			for _, c := range core.Calls(f, core.CallTo("sort.Slice", "sort.SliceStable", "sort.Search")) {
@@ -367,6 +356,7 @@ func c13(r *core.Run) {
 						continue
 					}
 					n++
+					searches++
 					geq := core.Cmp(token.GEQ, keyAt(nthParam(an, 0)), isFree)
 					for _, ret := range core.Returns(an) {
 						if m, pos := geq(core.Result(ret, 0)); !m || !pos {
@@ -379,6 +369,7 @@ func c13(r *core.Run) {
 					continue
 				}
 				n++
+				sorts++
 				less := core.Cmp(token.LSS, keyAt(nthParam(an, 0)), keyAt(nthParam(an, 1)))
 				for _, ret := range core.Returns(an) {
 					if m, pos := less(core.Result(ret, 0)); !m || !pos {
@@ -388,8 +379,14 @@ func c13(r *core.Run) {
 			}
 		}
 		o.Site(n, core.FuncName(add), core.FuncName(get), core.FuncName(rem))
-		if n < 3 {
-			o.Fail(p.Pos(add.Pos()), "sort comparator / search predicates not found (%d of 3)", n)
+		// the writer sorts, and both readers of the order search (directly or through one in-package helper)
+		if sorts == 0 || searches == 0 {
+			o.Fail(p.Pos(add.Pos()), "sort comparator / search predicates not found (%d comparators, %d predicates)", sorts, searches)
+		}
+		for _, f := range []*ssa.Function{get, rem} {
+			if !c13UsesSearch(f) {
+				o.Fail(p.Pos(f.Pos()), "%s does not binary-search the sorted keys", core.FuncName(f))
+			}
 		}
 	})
 	r.Check("D6/K1/membership-bookkeeping", "AddWithReplicas records the node, Remove is a no-op only for unknown nodes, forgets the node afterwards, and drops from a shared slot only the removed node", func(o *core.O) {
@@ -481,10 +478,7 @@ func c13(r *core.Run) {
 		if !o.Need(rem != nil, "ConsistentHash.Remove") {
 			return
 		}
-		isSearch := func(v ssa.Value) bool {
-			c, ok := v.(*ssa.Call)
-			return ok && core.Short(core.CalleeName(c)) == "sort.Search"
-		}
+		isSearch := c13IsSearch
 		lenKeys := core.IsLenOf(core.FieldLoad("ConsistentHash.keys"))
 		inside := core.AnyOf(core.Cmp(token.LSS, isSearch, lenKeys), core.Cmp(token.NEQ, isSearch, lenKeys))
 		isHashVal := func(v ssa.Value) bool {
